@@ -17,6 +17,15 @@ CLAIMED = {
             "primitives (trusted) - the 2^n tampering quantifier is discharged only through 'the exact received octets reach the "
             "primitive and its verdict gates the return'.",
             "pyca verify primitives; mypy receiver types; CPython semantics", "5/C01"),
+    "C02": ("static analysis: value-flow slices of every argument of the content decryption (AAD, ciphertext, tag, iv, CEK), "
+            "barrier slice of the stored plaintext, CFG dominance of tag/IV/CEK guards, sibling table of the three decrypt() implementations",
+            "Decides: the plaintext stored on the returned object comes only from enc.decrypt(); the AAD is the received encoded "
+            "protected header (never a re-serialisation) plus the decoded aad member; ciphertext/tag/iv are the received segments; each "
+            "decrypt() follows an accepted authenticate-then-decrypt idiom with the unsliced tag; check_iv, the direct-mode empty-key "
+            "guard, the single-CEK rules, the CEK length guard and the verify_all_recipients re-raise dominate the decryption; ECDH "
+            "exchanges are curve-guarded and epk only enters through the validating import; key material comes from the recipient "
+            "being processed. Not decided: AEAD soundness and point validation inside the crypto libraries (trusted).",
+            "pyca/cryptography, pycryptodome; mypy receiver types", "5/C02"),
     "C05": ("static analysis: constant folding of every registered algorithm model and registry table vs frozen tables, "
             "path-condition truth table of the allow-list gate, who-may-access rule on the class tables, value-flow of model receivers",
             "Decides: folded (name, recommended, location) of every model reaching register() at import equals the documented "
